@@ -32,6 +32,7 @@ def run(ctx):
     ctx.prove('props/C10.v')
     L.lockstep(ctx, [L.mon_c10], ['c10'], with_raw=True)
     L.instr_sweep(ctx, L.C10_KINDS)
+    L.allsigs_probe(ctx, ('extra',))
     c12.concurrent_add(ctx, 'records')
     # the info-carrying exfiltrators pass every record through a Channel: "each delivery yields at most
     # one record, a faithful copy, in delivery order" composes with C06 (FIFO, nothing invented or
